@@ -1198,6 +1198,105 @@ func TestVerifC55(t *testing.T) {
 	// ---- R: responder record sequences
 	c55checkDoReader()
 	r.Set("R.reader_built_directly", c55doReaderChecked)
+	// ---- RS: responder record sizes at the 16-bit / 8-bit field boundaries.
+	// One sized record X(type, contentLength, paddingLength) for type in {STDOUT, STDERR,
+	// END_REQUEST}, placed after nothing or after a STDOUT header block and followed by a small
+	// STDOUT record; ended by END_REQUEST, END_REQUEST+more, conn EOF, or the conn closing right
+	// after X's header / inside X's content / inside X's padding; x conn fragments {whole, 1, 8,
+	// 1000 bytes per Read} x read sizes. A sized STDOUT record of >= 64 bytes starts with a CGI
+	// header block itself, so the response is judged also when the big record comes first.
+	// Thorough adds every ordered pair of sized STDOUT/STDERR records.
+	rsCL := []int{0, 1, 7, 8, 65528, 65529, 65534, 65535}
+	rsPL := []int{0, 1, 7, 255}
+	rsTypes := []uint8{FCGIStdout, FCGIStderr, FCGIEndRequest}
+	r.Set("RS.contentLengths", rsCL)
+	r.Set("RS.paddingLengths", rsPL)
+	rsL1 := []c55cfg{{0, 4096}, {1, 4096}, {8, 1}, {1000, 3}}
+	rsL2 := []int{0, 1, 8, 1000}
+	hdrsSym := c55alphabet(false)[0]
+	tailSym := c55sym{"O:tail", FCGIStdout, "tail-after-sized-record", -1}
+	rsSym := func(typ uint8, cl, pl int) c55sym {
+		tn := map[uint8]string{FCGIStdout: "O", FCGIStderr: "E", FCGIEndRequest: "END"}[typ]
+		return c55sym{fmt.Sprintf("%s:sized(%d+%d)", tn, cl, pl), typ, c55sizedContent(typ, cl), pl}
+	}
+	for _, typ := range rsTypes {
+		for _, cl := range rsCL {
+			for _, pl := range rsPL {
+				if !mine() {
+					continue
+				}
+				x := rsSym(typ, cl, pl)
+				alphaRS := []c55sym{hdrsSym, x, tailSym}
+				lenient := typ == FCGIEndRequest && cl != 8
+				for pre := 0; pre < 2; pre++ {
+					seqRS := []int{1, 2}
+					xOff := 0
+					if pre == 1 {
+						seqRS = []int{0, 1, 2}
+						xOff = len(c55encRec(hdrsSym.typ, 1, []byte(hdrsSym.content), hdrsSym.pad))
+					}
+					type ending struct {
+						name string
+						term int
+						cut  int
+					}
+					ends := []ending{{"END", c55termEnd, -1}, {"END+more", c55termEndTrail, -1}, {"EOF", c55termEOF, -1},
+						{"cut-after-header", c55termEOF, xOff + 8}}
+					if cl > 0 {
+						ends = append(ends, ending{"cut-in-content", c55termEOF, xOff + 8 + (cl+1)/2})
+					}
+					if pl > 0 {
+						ends = append(ends, ending{"cut-in-padding", c55termEOF, xOff + 8 + cl + pl/2})
+					}
+					for _, e := range ends {
+						id := vk.Key("RS", typ, cl, pl, pre, e.name)
+						if !r.Case(id) {
+							continue
+						}
+						c55runScript(r, id, alphaRS, seqRS, e.term, rsL1, rsL2, c55opt{cut: e.cut, lenient: lenient})
+						if cl+pl > 255 {
+							r.Nontrivial(id)
+						}
+					}
+				}
+			}
+		}
+	}
+	mark("RS")
+	if r.Thorough() {
+		type sz struct {
+			typ    uint8
+			cl, pl int
+		}
+		var shapes []sz
+		for _, typ := range []uint8{FCGIStdout, FCGIStderr} {
+			for _, cl := range []int{0, 1, 8, 65528, 65529, 65535} {
+				for _, pl := range rsPL {
+					shapes = append(shapes, sz{typ, cl, pl})
+				}
+			}
+		}
+		for _, a := range shapes {
+			for _, b := range shapes {
+				if expired("RS2") {
+					break
+				}
+				if !mine() {
+					continue
+				}
+				alphaRS := []c55sym{hdrsSym, rsSym(a.typ, a.cl, a.pl), rsSym(b.typ, b.cl, b.pl), tailSym}
+				for _, term := range []int{c55termEnd, c55termCut} {
+					id := vk.Key("RS2", a.typ, a.cl, a.pl, b.typ, b.cl, b.pl, c55termName[term])
+					if !r.Case(id) {
+						continue
+					}
+					c55runScript(r, id, alphaRS, []int{0, 1, 2, 3}, term, []c55cfg{{0, 4096}, {8, 1}, {1000, 3}}, []int{0, 1000}, c55noOpt)
+					r.Nontrivial(id)
+				}
+			}
+		}
+		mark("RS2")
+	}
 	// quick: base alphabet up to length 4; thorough: base alphabet up to length 6 and the
 	// extended alphabet (64 KiB record, STDERR CRLFCRLF, bare-LF header block) up to length 4
 	type rfam struct {
@@ -1297,104 +1396,5 @@ func TestVerifC55(t *testing.T) {
 		}
 		walk(0)
 		mark(fam.tag)
-	}
-	// ---- RS: responder record sizes at the 16-bit / 8-bit field boundaries.
-	// One sized record X(type, contentLength, paddingLength) for type in {STDOUT, STDERR,
-	// END_REQUEST}, placed after nothing or after a STDOUT header block and followed by a small
-	// STDOUT record; ended by END_REQUEST, END_REQUEST+more, conn EOF, or the conn closing right
-	// after X's header / inside X's content / inside X's padding; x conn fragments {whole, 1, 8,
-	// 1000 bytes per Read} x read sizes. A sized STDOUT record of >= 64 bytes starts with a CGI
-	// header block itself, so the response is judged also when the big record comes first.
-	// Thorough adds every ordered pair of sized STDOUT/STDERR records.
-	rsCL := []int{0, 1, 7, 8, 65528, 65529, 65534, 65535}
-	rsPL := []int{0, 1, 7, 255}
-	rsTypes := []uint8{FCGIStdout, FCGIStderr, FCGIEndRequest}
-	r.Set("RS.contentLengths", rsCL)
-	r.Set("RS.paddingLengths", rsPL)
-	rsL1 := []c55cfg{{0, 4096}, {1, 4096}, {8, 1}, {1000, 3}}
-	rsL2 := []int{0, 1, 8, 1000}
-	hdrsSym := c55alphabet(false)[0]
-	tailSym := c55sym{"O:tail", FCGIStdout, "tail-after-sized-record", -1}
-	rsSym := func(typ uint8, cl, pl int) c55sym {
-		tn := map[uint8]string{FCGIStdout: "O", FCGIStderr: "E", FCGIEndRequest: "END"}[typ]
-		return c55sym{fmt.Sprintf("%s:sized(%d+%d)", tn, cl, pl), typ, c55sizedContent(typ, cl), pl}
-	}
-	for _, typ := range rsTypes {
-		for _, cl := range rsCL {
-			for _, pl := range rsPL {
-				if !mine() {
-					continue
-				}
-				x := rsSym(typ, cl, pl)
-				alphaRS := []c55sym{hdrsSym, x, tailSym}
-				lenient := typ == FCGIEndRequest && cl != 8
-				for pre := 0; pre < 2; pre++ {
-					seqRS := []int{1, 2}
-					xOff := 0
-					if pre == 1 {
-						seqRS = []int{0, 1, 2}
-						xOff = len(c55encRec(hdrsSym.typ, 1, []byte(hdrsSym.content), hdrsSym.pad))
-					}
-					type ending struct {
-						name string
-						term int
-						cut  int
-					}
-					ends := []ending{{"END", c55termEnd, -1}, {"END+more", c55termEndTrail, -1}, {"EOF", c55termEOF, -1},
-						{"cut-after-header", c55termEOF, xOff + 8}}
-					if cl > 0 {
-						ends = append(ends, ending{"cut-in-content", c55termEOF, xOff + 8 + (cl+1)/2})
-					}
-					if pl > 0 {
-						ends = append(ends, ending{"cut-in-padding", c55termEOF, xOff + 8 + cl + pl/2})
-					}
-					for _, e := range ends {
-						id := vk.Key("RS", typ, cl, pl, pre, e.name)
-						if !r.Case(id) {
-							continue
-						}
-						c55runScript(r, id, alphaRS, seqRS, e.term, rsL1, rsL2, c55opt{cut: e.cut, lenient: lenient})
-						if cl+pl > 255 {
-							r.Nontrivial(id)
-						}
-					}
-				}
-			}
-		}
-	}
-	mark("RS")
-	if r.Thorough() {
-		type sz struct {
-			typ    uint8
-			cl, pl int
-		}
-		var shapes []sz
-		for _, typ := range []uint8{FCGIStdout, FCGIStderr} {
-			for _, cl := range []int{0, 1, 8, 65528, 65529, 65535} {
-				for _, pl := range rsPL {
-					shapes = append(shapes, sz{typ, cl, pl})
-				}
-			}
-		}
-		for _, a := range shapes {
-			for _, b := range shapes {
-				if expired("RS2") {
-					break
-				}
-				if !mine() {
-					continue
-				}
-				alphaRS := []c55sym{hdrsSym, rsSym(a.typ, a.cl, a.pl), rsSym(b.typ, b.cl, b.pl), tailSym}
-				for _, term := range []int{c55termEnd, c55termCut} {
-					id := vk.Key("RS2", a.typ, a.cl, a.pl, b.typ, b.cl, b.pl, c55termName[term])
-					if !r.Case(id) {
-						continue
-					}
-					c55runScript(r, id, alphaRS, []int{0, 1, 2, 3}, term, []c55cfg{{0, 4096}, {8, 1}, {1000, 3}}, []int{0, 1000}, c55noOpt)
-					r.Nontrivial(id)
-				}
-			}
-		}
-		mark("RS2")
 	}
 }
